@@ -418,7 +418,7 @@ def _obj_map(f, x):
     fo, fx = out.reshape(-1), x.reshape(-1)
     for i in range(fx.size):
         fo[i] = f(fx[i])
-    return out
+    return out.view(SymArray)
 
 
 def _obj_map2(f, a, b):
@@ -431,7 +431,7 @@ def _obj_map2(f, a, b):
     fo, fa, fb = out.reshape(-1), A.reshape(-1), B.reshape(-1)
     for i in range(fa.size):
         fo[i] = f(fa[i], fb[i])
-    return out
+    return out.view(SymArray)
 
 
 def _smax_fork(a, b):
